@@ -2,6 +2,7 @@ package completion
 
 import (
 	"unicode"
+	"unicode/utf8"
 
 	"github.com/reeflective/readline/inputrc"
 	"github.com/reeflective/readline/internal/core"
@@ -115,9 +116,11 @@ func (e *Engine) acceptCandidate() {
 	completion := e.prepareSuffix()
 	e.inserted = []rune(completion)
 
-	// Remove the line prefix and insert the candidate.
-	e.cursor.Move(-1 * len(e.prefix))
-	e.line.Cut(e.cursor.Pos(), e.cursor.Pos()+len(e.prefix))
+	// Remove the line prefix (counted in characters,
+	// like the cursor position) and insert the candidate.
+	prefixLen := utf8.RuneCountInString(e.prefix)
+	e.cursor.Move(-1 * prefixLen)
+	e.line.Cut(e.cursor.Pos(), e.cursor.Pos()+prefixLen)
 	e.cursor.InsertAt(e.inserted...)
 
 	// And forget about this inserted completion.
@@ -151,9 +154,11 @@ func (e *Engine) insertCandidate() {
 	e.compCursor = core.NewCursor(e.compLine)
 	e.compCursor.Set(e.cursor.Pos())
 
-	// Remove the line prefix and insert the candidate.
-	e.compCursor.Move(-1 * len(e.prefix))
-	e.compLine.Cut(e.compCursor.Pos(), e.compCursor.Pos()+len(e.prefix))
+	// Remove the line prefix (counted in characters,
+	// like the cursor position) and insert the candidate.
+	prefixLen := utf8.RuneCountInString(e.prefix)
+	e.compCursor.Move(-1 * prefixLen)
+	e.compLine.Cut(e.compCursor.Pos(), e.compCursor.Pos()+prefixLen)
 	e.compCursor.InsertAt(e.inserted...)
 }
 
